@@ -9,6 +9,8 @@ typed part of the `cont` stream.
 -/
 import Anko.Model.Cont
 import Anko.Proofs.Cont
+import Anko.Gen.ContFlow
+import Anko.Props.ContFlowTable
 
 namespace Anko.C10
 open Anko.Cont
@@ -405,5 +407,14 @@ def demo : List Op :=
 example : (Heap.empty.run demo).2 =
     [.ok (.slice ⟨0, 0, 3, 3⟩), .ok (.slice ⟨0, 0, 1, 3⟩), .ok (.slice ⟨0, 0, 2, 3⟩), .ok (.int 9),
      .err "index out of range", .ok (.int 7), .err "index must be a number"] := by decide
+
+/-! ### The container paths of the source (regenerated: Gen/ContFlow)
+
+Every leaf statement of the index, slice, len, member and make expressions, of every assignment target of vm/vmLetExpr.go (variable, member, index into
+slice / map / string, slice range, dereference), of getMapIndex / appendSlice / isHashable, of delete and of the two-value map read, with the
+conditions it stands under, is the one written down in Props/ContFlowTable next to Model/Cont: the guard in front of every reflect operation, what
+is copied and what shared, what a failing store leaves behind. Any edit of these functions - also a harmless one - breaks this obligation by name; the check then
+searches model and implementation for a failing input (DESIGN.md 13.3). -/
+theorem container_paths_are_the_modelled_ones : Gen.ContFlow.leaves = Tables.contFlow := by decide +kernel
 
 end Anko.C10
